@@ -587,6 +587,7 @@ func poison() {
 
 func main() {
 	r = lib.NewReport("C05")
+	defer r.Guard()
 	maxLen := 3
 	if r.Tier == "thorough" {
 		maxLen = 4
